@@ -112,3 +112,68 @@ Proof.
   - intros i j v. exact (calibrated_sorted_cell cal raw ns nc order gain Hrect Hok Hgain M i j v HM).
   - intros nsel csel. exact (read_eq_np_index cal raw ns nc order gain Hrect Hok Hgain M nsel csel HM).
 Qed.
+
+(* ---------------------------------------------------------------- gains: joint with C09 *)
+Require IBL.C09.Model IBL.C09.Props.
+Module M9 := IBL.C09.Model.
+Module T9 := IBL.C09.Props.
+
+(* any vector C09's model assigns to the stream, used as the reader's gain vector *)
+Lemma gain_alignment {A V : Type} (cal : A -> M9.conv -> V) d r mi g raw ns nc order :
+  M9.sample2volts d = Some (r, mi, g) -> zlen g = nc -> rect raw ns nc -> order_ok order nc ->
+  exists M, calibrated_sorted cal raw order g = Some M /\
+    (forall i j v,
+       (exists Mrow, zget M i = Some Mrow /\ zget Mrow j = Some v) <->
+       (exists row c a gc, zget raw i = Some row /\ zget order j = Some c /\
+                           zget row c = Some a /\ zget g c = Some gc /\ v = cal a gc)) /\
+    (forall nsel csel, is_fancy nsel && is_fancy csel = false ->
+       ((exists x, sel_positions ns nsel = Ok x) \/ (exists x, sel_positions nc csel = Ok x)) ->
+       read cal None raw nc order g nsel csel = np_index2 M ns nc nsel csel).
+Proof.
+  intros _ Hg Hrect Hok.
+  destruct (calibrated_sorted_total cal raw ns nc order g Hrect Hok Hg) as [M HM].
+  exists M. split; [exact HM|]. split.
+  - intros i j v. exact (calibrated_sorted_cell cal raw ns nc order g Hrect Hok Hg M i j v HM).
+  - intros nsel csel. exact (read_eq_np_index cal raw ns nc order g Hrect Hok Hg M nsel csel HM).
+Qed.
+
+Lemma zget_app_pos {T} (l t : list T) i : zlen l <= i -> zget (l ++ t) i = zget t (i - zlen l).
+Proof. apply zget_app_r. Qed.
+
+Lemma zlen_zrepeat {T} (a : T) n : 0 <= n -> zlen (M9.zrepeat a n) = n.
+Proof. intros H. unfold zlen, M9.zrepeat. rewrite repeat_length. lia. Qed.
+
+Lemma zget_zrepeat {T} (a : T) n i : 0 <= i < n -> zget (M9.zrepeat a n) i = Some a.
+Proof.
+  intros H. unfold zget, M9.zrepeat. destruct (i <? 0) eqn:E; [apply Z.ltb_lt in E; lia|].
+  rewrite (nth_error_nth' _ a) by (rewrite repeat_length; lia). now rewrite nth_repeat.
+Qed.
+
+(* nidq: on-disk channel c is scaled by range/maxint/niMNGain (c < MN), /niMAGain (next MA),
+   range/maxint (next XA), and left unscaled (the DW digital words) — whatever the four
+   counts are, zero included *)
+Lemma nidq_gain_classes (gmn gma : M9.dec) c0 c1 c2 c3 c :
+  0 <= c0 -> 0 <= c1 -> 0 <= c2 -> 0 <= c3 ->
+  let vec := M9.zrepeat (M9.CG gmn) c0 ++ M9.zrepeat (M9.CG gma) c1 ++
+             M9.zrepeat (M9.CG (1, O)) c2 ++ M9.zrepeat M9.C1 c3 in
+  zlen vec = c0 + c1 + c2 + c3 /\
+  (0 <= c < c0 -> zget vec c = Some (M9.CG gmn)) /\
+  (c0 <= c < c0 + c1 -> zget vec c = Some (M9.CG gma)) /\
+  (c0 + c1 <= c < c0 + c1 + c2 -> zget vec c = Some (M9.CG (1, O))) /\
+  (c0 + c1 + c2 <= c < c0 + c1 + c2 + c3 -> zget vec c = Some M9.C1).
+Proof.
+  intros H0 H1 H2 H3 vec. subst vec.
+  split; [|split; [|split; [|split]]].
+  - unfold zlen. rewrite !app_length. fold (zlen (M9.zrepeat (M9.CG gmn) c0)).
+    unfold M9.zrepeat. rewrite !repeat_length. lia.
+  - intros H. rewrite zget_app_l by (rewrite zlen_zrepeat; lia). apply zget_zrepeat. lia.
+  - intros H. rewrite zget_app_r by (rewrite zlen_zrepeat; lia). rewrite zlen_zrepeat by lia.
+    rewrite zget_app_l by (rewrite zlen_zrepeat; lia). apply zget_zrepeat. lia.
+  - intros H. rewrite zget_app_r by (rewrite zlen_zrepeat; lia). rewrite zlen_zrepeat by lia.
+    rewrite zget_app_r by (rewrite zlen_zrepeat; lia). rewrite zlen_zrepeat by lia.
+    rewrite zget_app_l by (rewrite zlen_zrepeat; lia). apply zget_zrepeat. lia.
+  - intros H. rewrite zget_app_r by (rewrite zlen_zrepeat; lia). rewrite zlen_zrepeat by lia.
+    rewrite zget_app_r by (rewrite zlen_zrepeat; lia). rewrite zlen_zrepeat by lia.
+    rewrite zget_app_r by (rewrite zlen_zrepeat; lia). rewrite zlen_zrepeat by lia.
+    apply zget_zrepeat. lia.
+Qed.
